@@ -46,8 +46,11 @@ pub fn check_cell(cell: &Cell, seed: u64) -> Result<&'static str, (String, Strin
     if s.eq_dyn(s.as_ref()) == Some(false) {
         return Err(("not_equal".into(), format!("{key}: the value does not compare equal to itself (NaN in its internal representation {}), so no round trip can compare equal", s.debug())));
     }
-    if text != "null" && text.contains("null") {
-        // an infinite internal field: JSON cannot carry it (format limitation, counted)
+    // an infinite internal field: serde_json writes null and cannot read it back as a float. If the type's own
+    // deserialiser does accept the document, the result is judged like any other; if it does not, that is the
+    // format's limitation (counted)
+    let has_null = text != "null" && text.contains("null");
+    if has_null && via_text.is_err() && via_value.is_err() {
         return Ok("non_finite_internal_field");
     }
     let judge = |route: &str, r: Result<Box<dyn Sampler>, String>| -> Result<(), (String, String)> {
@@ -94,6 +97,15 @@ pub fn cells(ctx: &Ctx) -> Vec<Cell> {
         }
     }
     v.extend(extra_cells(ctx.seed, if ctx.thorough() { 40 } else { 8 }));
+    // documented special values with a non-finite internal field
+    for ft in [Ft::F32, Ft::F64] {
+        v.push(Cell::new(Fam::Exp, ft, &[0.0]));
+        v.push(Cell::new(Fam::Normal, ft, &[f64::NEG_INFINITY, 1.0]));
+        v.push(Cell::new(Fam::Normal, ft, &[f64::INFINITY, 1.0]));
+        v.push(Cell::new(Fam::LogNormalMeanCv, ft, &[0.0, 0.0]));
+        v.push(Cell::new(Fam::Gamma, ft, &[2.0, f64::INFINITY]));
+        v.push(Cell::new(Fam::Gamma, ft, &[f64::INFINITY, 2.0]));
+    }
     // weighted indices of lengths 1..300 for every weight type
     let mut r = BaseRng::from_env(hseed(&[ctx.seed, 0x5E2D]));
     for (k, fam) in ALIAS_INT.iter().chain(TREE_INT.iter()).enumerate() {
